@@ -215,14 +215,17 @@ Definition filter_managed (flt : option str) (m : list tpath) : list tpath :=
 Definition under_roots (roots : list root) (tp : tpath) : bool :=
   existsb (fun r => str_eqb (rtarget r) (fst tp) && is_prefix (rpath r) (snd tp)) roots.
 
+(* a usable manifest, even one that lists nothing, is the record; the snapshot fallback is for
+   roots without any usable manifest *)
+Definition any_usable (f : fs) (roots : list root) : bool :=
+  existsb (fun r => match read_manifest f r with Some _ => true | None => false end) roots.
+
 Definition managed_for_plan (w : world) (roots : list root) (flt : option str) : list tpath :=
-  match load_managed (files w) roots with
-  | x :: m => filter_managed flt (x :: m)
-  | [] => match latest_dr (snaps w) with
-          | Some sn => filter_managed flt (filter (under_roots roots) (snap_managed sn))
-          | None => []
-          end
-  end.
+  if any_usable (files w) roots then filter_managed flt (load_managed (files w) roots)
+  else match latest_dr (snaps w) with
+       | Some sn => filter_managed flt (filter (under_roots roots) (snap_managed sn))
+       | None => []
+       end.
 
 (* ---------- desired state and plan (deploy.rs) ---------- *)
 Record dfile := { dtarget : str; dpath : path; dcontent : N; dids : list str }.
